@@ -487,3 +487,41 @@ Arguments complete {dstate estate}.
 Arguments apply_settings {dstate estate}.
 Arguments pstep {dstate estate}.
 Arguments run {dstate estate}.
+
+(* ------------------------------------------------------------- h2.go forwardPreface *)
+(* reads: what successive Read calls on the client connection return (TLS records, TCP segments) *)
+Fixpoint read_full (n : nat) (reads : list (list N)) : option (list N * list (list N)) :=
+  match reads with
+  | [] => match n with O => Some ([], []) | _ => None end          (* EOF before n octets *)
+  | c :: r =>
+      match n with
+      | O => Some ([], reads)
+      | _ =>
+          if (length c <=? n)%nat
+          then match read_full (n - length c) r with
+               | Some (got, rest) => Some (c ++ got, rest)
+               | None => None
+               end
+          else Some (firstn n c, skipn n c :: r)
+      end
+  end.
+
+(* Some p: p was written to the server; None: "client sent unexpected preface" / read error.
+   Second component: what is left for the framer. *)
+Definition forward_preface (reads : list (list N)) : option (list N) * list (list N) :=
+  let n := length connection_preface in
+  if preface_read_full then
+    match read_full n reads with
+    | Some (got, rest) => if str_eqb got connection_preface then (Some got, rest) else (None, rest)
+    | None => (None, [])
+    end
+  else
+    match reads with
+    | [] => (None, [])
+    | c :: r =>
+        (* one Read into a zeroed buffer of n octets *)
+        let got := firstn n c in
+        let buf := got ++ repeat 0 (n - length got) in
+        let rest := match skipn n c with [] => r | x => x :: r end in
+        if str_eqb buf connection_preface then (Some buf, rest) else (None, rest)
+    end.
